@@ -258,7 +258,14 @@ class _AnnotationStringParser(ast.NodeTransformer):
     def visit_Constant(self, node: ast.Constant) -> ast.expr:
         value = node.value
         if isinstance(value, str):
-            return ast.copy_location(self._parse_string(value), node)
+            expr = ast.copy_location(self._parse_string(value), node)
+            # The parsed expression takes the place of the string in the tree: give it 
+            # (and its children) parents, the operator precedence is read from them when 
+            # the annotation is presented.
+            parentage = Parentage()
+            parentage.parent = getattr(node, 'parent', None)
+            parentage.visit(expr)
+            return expr
         else:
             const = self.generic_visit(node)
             assert isinstance(const, ast.Constant), const
